@@ -14,6 +14,7 @@ CHECKS = {
  'C06': (MC, "read_null_terminated_string on up to 300 fully symbolic bytes (one path per first-NUL position, chunk boundaries included); MUTF-8 round trip of 1..2 (thorough 3) fully symbolic UTF-16 code units through StringDataItem and the repo's mutf8.decode binding (the mutf8 package's Python decoder run symbolically); const-string / jumbo index symbolic on a skeleton DEX", '5/C06', 'symbolic execution with SymIO, symbolic strings and the AST-rewritten mutf8 fallback'),
  'C08': (MC, "code items with 1..3 fully symbolic try_items and 1..2 handler lists (sizes -2..2, symbolic uleb128 fields of 1-2 bytes), padding parity both ways; reported tries/handlers/determineException compared with a declarative decode of the same bytes", '5/C08', 'symbolic execution of DalvikCode parsing + determineException'),
  'C09': (MC, "DEX()/HeaderItem on a fully symbolic 112-byte header with Adler-32 as an uninterpreted value and a MapList call-order monitor; single-byte-change lemma on the Adler-32 definition (z3 LIA); short buffers", '5/C09', 'symbolic execution of DEX.__init__/HeaderItem + z3 integer lemma'),
+ 'C29': (MC, "ResourceResolver over tables of 1..4 (thorough 5) real ARSCResTableEntry objects, one optionally complex, with every value's type (reference / literal) and 32-bit data symbolic (references range over all entries, a missing id and null); unwinding assertion depth <= K+2; resolved values equal the literals reachable in the reference graph", '5/C29', 'symbolic execution of the resolver with an unwinding assertion'),
  'C30': (MC, "all two-letter and packed three-letter languages x absent / two-character / three-digit regions as symbolic characters: string->word, word->string and both round trips against AOSP pack/unpackLanguageOrRegion", '5/C30', 'symbolic execution over symbolic strings (SStr) and bit-vectors'),
  'C10': (MC, "skeleton DEX (dexasm) whose method is a seeded template of 5..8 concrete opcodes + payloads with symbolic branch offsets / switch targets / payload references / try start, count and handler addresses (3-4 symbolic quantities per template, full field width); the real DEX() + MethodAnalysis run on every path. Obligations: blocks partition the sweep, every target / try start / handler begins a block, only the last instruction branches", '5/C10-C12,C40', 'symbolic execution of DEX parsing + MethodAnalysis on skeleton overlays'),
  'C11': (MC, "skeleton DEX (dexasm) whose method is a seeded template of 5..8 concrete opcodes + payloads with symbolic branch offsets / switch targets / payload references / try start, count and handler addresses (3-4 symbolic quantities per template, full field width); the real DEX() + MethodAnalysis run on every path. Obligations: successor sets equal the targets the last instruction allows, each child block starts at its target, predecessor lists are the inverse", '5/C10-C12,C40', 'symbolic execution of DEX parsing + MethodAnalysis on skeleton overlays'),
